@@ -16,7 +16,11 @@ R2 alias-handler exhaustiveness: for every grammar construct that can bind or fo
    (class table of the listener minus the generated no-op base), or -- for computed keys -- the index handler
    has a fall-back effect on the non-literal path.
 R3 scope bookkeeping of `NamesStack`:
-   a. `enterX` pushes a scope iff `exitX` pops one;
+   a. `enterX` pushes a scope iff `exitX` pops one, and each does so on every path through the handler; the names a
+      scope-changing handler registers / removes belong to that construct's own scope: in the pushing handler every
+      `self.names.add_*/delete_*` is dominated by the push (a shadowing parameter registered before the push lands in
+      the enclosing scope, outlives the function and hides the real `inputs` there), in the popping handler none
+      follows the pop;
    b. `delete_name` must not raise for a name that `__contains__` reports (callers guard with `name in self.names`,
       which searches every scope, while the removal touches only the innermost one);
    c. alias registration and parameter shadowing must not go through the same operation while `global_names()`
@@ -25,7 +29,10 @@ R4 results propagate: `DependencyResolver.eval` walks the tree with the listener
    `resolve_dependencies` returns the deps of the engine it handed to `interpolate`; the member handlers test
    the *receiver* (`singleExpression()`) against the tracked names and add the *member* (`identifierName()` /
    the string literal of `expressionSequence()`); the alias branch of the assignment handler adds the left name
-   when the right name is tracked.
+   when the right name is tracked; every parameter of `resolve_dependencies` is read by an argument of the
+   `interpolate(.., js_engine=engine)` call or of the `DependencyResolver` constructor (def-use closure), and the
+   library list of the `jshead(..)` call that builds the scanned `jslib` is computed from a parameter (the caller's
+   expressionLib: inputs read inside library functions are dependencies of the expression that calls them).
 
 Left out of DESIGN's R2 table: *function expression parameters*.  Without a handler a function expression
 neither pushes a scope nor shadows, so names are only ever over-approximated (a superset keeps the clause);
@@ -62,7 +69,8 @@ META = {
         "and every method call on a context is checked against the parser's class hierarchy; Optional helper results "
         "must be guarded before a dereference; the listener's handler set is compared with a frozen table of "
         "name-binding grammar constructs; NamesStack push/pop pairing, removal robustness and alias/shadow separation; "
-        "propagation of the collected set to resolve_dependencies' result."
+        "propagation of the collected set to resolve_dependencies' result; CFG dominance of the scope push over the "
+        "shadow registrations; def-use flow of every resolve_dependencies parameter (expression library included) into the scan."
     ),
     "undecided": "completeness of the alias analysis beyond the frozen construct table (call arguments, return values, "
     "with-statements); optional grammar children; agreement with the fields actually read by a JavaScript engine",
@@ -418,6 +426,33 @@ def _calls_on_names(f, meth):
     return [c for c in f.calls() if isinstance(c.func, ast.Attribute) and c.func.attr == meth and unparse(c.func.value) == "self.names"]
 
 
+def _scope_local_ops(f):
+    """Calls `self.names.<op>(..)` that change the content of the innermost scope (add_name, delete_name, ...)."""
+    return [
+        c
+        for c in f.calls()
+        if isinstance(c.func, ast.Attribute)
+        and unparse(c.func.value) == "self.names"
+        and c.func.attr.startswith(("add_", "delete_", "remove_", "discard_"))
+        and not c.func.attr.endswith("_scope")
+    ]
+
+
+def _names_deep(f, expr, depth: int = 5, _seen: frozenset = frozenset(), values_only: bool = False) -> set[str]:
+    """Names read by `expr`, following locals into all their definitions (flow-insensitive); `values_only` leaves out
+    the names that only select a branch of a conditional expression."""
+    out: set[str] = set()
+    tests = {id(x) for n in [expr, *walk_no_nested(expr)] if isinstance(n, ast.IfExp) for x in [n.test, *ast.walk(n.test)]} if values_only else set()
+    for n in [expr, *walk_no_nested(expr)]:
+        if isinstance(n, ast.Name) and isinstance(n.ctx, ast.Load) and id(n) not in tests:
+            out.add(n.id)
+            if depth > 0 and n.id not in _seen:
+                for d in defs_of(f, n.id):
+                    if d.value is not None:
+                        out |= _names_deep(f, d.value, depth - 1, _seen | {n.id}, values_only)
+    return out
+
+
 def r3(ctx):
     p = ctx.prog
     own = _own_methods(p)
@@ -439,6 +474,61 @@ def r3(ctx):
         )
     for m in stray:
         ctx.ob("R3", "scopes change only in enter/exit handlers", False, func=m, node=m.node, instance=f"scope-stray:{m.name}")
+    # a'. names registered / removed by a scope-changing handler belong to the scope of that construct: in the
+    #     pushing handler every such operation is dominated by the push (otherwise a shadowing parameter lands in
+    #     the enclosing scope and outlives the function); in the popping handler none follows the pop.
+    for k, m in sorted(pushes.items()):
+        g = m.cfg
+        push_ids = [i for c in _calls_on_names(m, "add_scope") for i in g.node_containing(c)]
+        for c in _scope_local_ops(m):
+            ids = g.node_containing(c)
+            ok = bool(push_ids) and bool(ids) and all(g.dominates(push_ids, i) for i in ids)
+            wit = []
+            if not ok and ids:
+                pth = g.path(g.entry, ids, avoid=push_ids)
+                wit = g.describe(pth) if pth else []
+            ctx.ob(
+                "R3",
+                f"enter{k}: `{unparse(c)[:50]}` acts on the scope pushed by this handler (add_scope dominates it)",
+                ok,
+                func=m,
+                node=c,
+                instance=f"scope-order:enter{k}:{c.func.attr}",
+                message=f"enter{k}: `{unparse(c)}` can run before `self.names.add_scope()`: the name is registered in the *enclosing* scope, "
+                f"survives exit{k} and is subtracted by global_names() -- after a nested `function f(inputs){{..}}` every later `inputs.x` of the "
+                "enclosing function yields no dependency",
+                witness=wit,
+            )
+    for k, m, op in [(k, m, "add_scope") for k, m in sorted(pushes.items())] + [(k, m, "delete_scope") for k, m in sorted(pops.items())]:
+        g = m.cfg
+        ids = [i for c in _calls_on_names(m, op) for i in g.node_containing(c)]
+        esc = g.escape(g.entry, ids) if ids else None
+        ctx.ob(
+            "R3",
+            f"{m.name}: `self.names.{op}()` runs on every path through the handler",
+            bool(ids) and esc is None,
+            func=m,
+            node=m.node,
+            instance=f"scope-every-path:{m.name}",
+            message=f"{m.name} can return without `self.names.{op}()` while its counterpart changes the stack unconditionally: the scope stack "
+            "gets out of step with the nesting of function declarations",
+            witness=g.describe(esc) if esc else [],
+        )
+    for k, m in sorted(pops.items()):
+        g = m.cfg
+        pop_ids = [i for c in _calls_on_names(m, "delete_scope") for i in g.node_containing(c)]
+        after = g.reach(pop_ids) if pop_ids else set()
+        for c in _scope_local_ops(m):
+            ids = g.node_containing(c)
+            ctx.ob(
+                "R3",
+                f"exit{k}: `{unparse(c)[:50]}` acts on the scope of this construct (not after delete_scope)",
+                not any(i in after for i in ids),
+                func=m,
+                node=c,
+                instance=f"scope-order:exit{k}:{c.func.attr}",
+                message=f"exit{k}: `{unparse(c)}` can run after `self.names.delete_scope()`: it changes the enclosing scope instead of the function's own",
+            )
     # b. delete_name robustness
     ns = p.cls(NAMES)
     dn = ns.methods.get("delete_name")
@@ -590,10 +680,45 @@ def r4(ctx):
     returned = any(isinstance(n, ast.Return) and n.value is not None and unparse(n.value) == f"{ev}.deps" for n in f.body_nodes())
     ctx.ob("R4", "resolve_dependencies returns the deps of the engine handed to interpolate", handed and returned, func=f, node=f.node,
            instance="resolve_dependencies:result")
+    # every parameter a caller supplies reaches the scan: the interpolate call that receives the engine, or the
+    # engine's constructor (a parameter that is accepted but no longer forwarded silently narrows what is scanned)
+    sinks = [c for c in f.calls() if any(k.arg == "js_engine" and isinstance(k.value, ast.Name) and k.value.id == ev for k in c.keywords)]
+    if sinks:
+        sink_exprs = [a for c in [*sinks, eng[0].value] for a in [*c.args, *[k.value for k in c.keywords]]]
+        read = set()
+        for e in sink_exprs:
+            read |= _names_deep(f, e)
+        for prm in f.params:
+            ctx.ob("R4", f"resolve_dependencies: parameter `{prm}` reaches the scan (interpolate / DependencyResolver arguments)", prm in read,
+                   func=f, node=sinks[0], instance=f"resolve_dependencies:param:{prm}",
+                   message=f"resolve_dependencies accepts `{prm}` (its callers supply it) but no argument of the interpolate(.., js_engine={ev}) call "
+                   f"or of DependencyResolver(..) is computed from it: what the callers pass is ignored by the dependency scan")
+        # the code handed to the listener contains the expression library: the library argument of jshead is
+        # computed from a parameter of resolve_dependencies (inputs read inside library functions are dependencies)
+        for c in sinks:
+            jl = [k.value for k in c.keywords if k.arg == "jslib"]
+            heads = [h for v in jl for h in calls_deep(f, v) if is_call_to(p, f, h, "cwl_utils.expression.jshead", "jshead")]
+            libs = []
+            for h in heads:
+                la = h.args[0] if h.args else next((k.value for k in h.keywords if k.arg == "engine_config"), None)
+                if la is not None:
+                    libs.append(la)
+            if heads:
+                ok = bool(libs) and all(_names_deep(f, la) & set(f.params) for la in libs)
+                shown = ", ".join(unparse(h)[:70] for h in heads)
+            else:
+                # no jshead: the jslib text itself must be computed from a parameter (not merely selected by one)
+                ok = bool(jl) and all(_names_deep(f, v, values_only=True) & set(f.params) for v in jl)
+                shown = ", ".join(unparse(v)[:70] for v in jl) or "<no jslib argument>"
+            ctx.ob("R4", "resolve_dependencies: the scanned jslib is built from the caller's expression library", ok, func=f, node=c,
+                   instance="resolve_dependencies:jslib-from-expression-lib",
+                   message=f"the jslib handed to the dependency scan is `{shown}`: its library list is not computed from a parameter of "
+                   "resolve_dependencies, so the bodies of the expressionLib functions are not scanned and every `inputs` field read "
+                   "through a library helper is missing from the dependency set")
 
 
 RULES = [("R1", r1), ("R2", r2), ("R3", r3), ("R4", r4)]
-FLOORS = {"R1": 14, "R2": 5, "R3": 3, "R4": 8}
+FLOORS = {"R1": 14, "R2": 5, "R3": 5, "R4": 13}
 
 VARIANTS = [
     # ---- breaking (today's tree already violates R1/R2/R3: each variant must add a finding)
@@ -618,7 +743,42 @@ VARIANTS = [
     V("listener result not merged", FILE, f"{RESOLVER}.eval", "self.deps |= listener.deps", "pass", "R4"),
     V("regex_eval drops the key", FILE, f"{RESOLVER}.regex_eval", "self.deps.add(key)", "pass", "R4"),
     V("resolve_dependencies returns a fresh set", CUFILE, f"{CWLUTILS}.resolve_dependencies", "return engine.deps", "return set()", "R4", count=1),
+    # seeded C31-1: the shadowing parameter is registered before the function's scope exists
+    V("shadow registered before the scope push", FILE, f"{LISTENER}.enterFunctionDeclaration",
+      "self.names.add_scope()\n    parameters = ctx.formalParameterList()\n    if parameters:\n        for param in parameters.Identifier():\n            if (name := param.symbol.text) in self.names:\n                self.names.add_name(name)",
+      "parameters = ctx.formalParameterList()\n    if parameters:\n        for param in parameters.Identifier():\n            if (name := param.symbol.text) in self.names:\n                self.names.add_name(name)\n    self.names.add_scope()",
+      "R3"),
+    V("scope pushed after the parameter loop header", FILE, f"{LISTENER}.enterFunctionDeclaration",
+      "self.names.add_scope()\n    parameters = ctx.formalParameterList()\n    if parameters:",
+      "parameters = ctx.formalParameterList()\n    if not parameters:\n        self.names.add_scope()\n    if parameters:", "R3"),
+    V("scope pushed only for functions with parameters", FILE, f"{LISTENER}.enterFunctionDeclaration",
+      "self.names.add_scope()\n    parameters = ctx.formalParameterList()\n    if parameters:",
+      "parameters = ctx.formalParameterList()\n    if parameters:\n        self.names.add_scope()", "R3"),
+    V("name removed after the scope is popped", FILE, f"{LISTENER}.exitFunctionDeclaration", "self.names.delete_scope()",
+      "self.names.delete_scope()\n    if 'arguments' in self.names:\n        self.names.delete_name('arguments')", "R3"),
+    # seeded C31-3: the expression library is no longer part of the scanned code
+    V("expressionLib omitted from the scanned jslib", CUFILE, f"{CWLUTILS}.resolve_dependencies",
+      "jslib=cwl_utils.expression.jshead(expression_lib or [], context) if full_js else ''",
+      "jslib=cwl_utils.expression.jshead([], context) if full_js else ''", "R4", control=True),
+    V("jslib argument dropped", CUFILE, f"{CWLUTILS}.resolve_dependencies",
+      "jslib=cwl_utils.expression.jshead(expression_lib or [], context) if full_js else '', ", "", "R4"),
+    V("library list emptied through a temporary", CUFILE, f"{CWLUTILS}.resolve_dependencies",
+      "engine = DependencyResolver(context_key)\n        cwl_utils.expression.interpolate(expression, context, jslib=cwl_utils.expression.jshead(expression_lib or [], context) if full_js else ''",
+      "engine = DependencyResolver(context_key)\n        libs = []\n        cwl_utils.expression.interpolate(expression, context, jslib=cwl_utils.expression.jshead(libs, context) if full_js else ''", "R4"),
+    V("strip_whitespace no longer forwarded", CUFILE, f"{CWLUTILS}.resolve_dependencies", "strip_whitespace=strip_whitespace", "strip_whitespace=True", "R4"),
+    V("context_key no longer forwarded", CUFILE, f"{CWLUTILS}.resolve_dependencies", "engine = DependencyResolver(context_key)", "engine = DependencyResolver('inputs')", "R4"),
     # ---- benign
+    V("benign: parameter list fetched before the scope push", FILE, f"{LISTENER}.enterFunctionDeclaration",
+      "self.names.add_scope()\n    parameters = ctx.formalParameterList()", "parameters = ctx.formalParameterList()\n    self.names.add_scope()", None),
+    V("benign: shadow loop without the outer test, renamed locals", FILE, f"{LISTENER}.enterFunctionDeclaration",
+      "parameters = ctx.formalParameterList()\n    if parameters:\n        for param in parameters.Identifier():\n            if (name := param.symbol.text) in self.names:\n                self.names.add_name(name)",
+      "plist = ctx.formalParameterList()\n    tokens = plist.Identifier() if plist else []\n    for tok in tokens:\n        pname = tok.symbol.text\n        if pname in self.names:\n            self.names.add_name(pname)", None),
+    V("benign: library list and jslib through temporaries", CUFILE, f"{CWLUTILS}.resolve_dependencies",
+      "engine = DependencyResolver(context_key)\n        cwl_utils.expression.interpolate(expression, context, jslib=cwl_utils.expression.jshead(expression_lib or [], context) if full_js else ''",
+      "engine = DependencyResolver(context_key)\n        libs = list(expression_lib) if expression_lib else []\n        head = cwl_utils.expression.jshead(libs, context) if full_js else ''\n        cwl_utils.expression.interpolate(expression, context, jslib=head", None),
+    V("benign: jslib built in an if statement", CUFILE, f"{CWLUTILS}.resolve_dependencies",
+      "engine = DependencyResolver(context_key)\n        cwl_utils.expression.interpolate(expression, context, jslib=cwl_utils.expression.jshead(expression_lib or [], context) if full_js else ''",
+      "engine = DependencyResolver(context_key)\n        head = ''\n        if full_js:\n            head = cwl_utils.expression.jshead(expression_lib or [], context)\n        cwl_utils.expression.interpolate(expression, context, jslib=head", None),
     V("benign: literal access narrowed by isinstance and None-test (partial S8 repair)", FILE, f"{LISTENER}.enterMemberIndexExpression",
       "if (dep := self._get_index(expr.literal()).strip('\\'\"')):\n                self.deps.add(dep)",
       "if isinstance(expr, ECMAScriptParser.LiteralExpressionContext):\n                index = self._get_index(expr.literal())\n                if index:\n                    self.deps.add(index.strip('\\'\"'))", None),
